@@ -229,6 +229,39 @@ def run(ctx):
             elif out != first:
                 res.violations.append(vlib.Violation("two runs on the same repository produced different stdout", inp))
                 break
+        # more than 100 000 trees, two of them tied for a maximum, the one listed FIRST finishing last (it waits for a huge
+        # sub-tree): which one is cited must not depend on GOMAXPROCS (a pool of tree workers would pick whichever finishes first)
+        ht = S.Scenario()
+        hb = ht.add({"kind": "blob", "size": 7, "data": None})
+        hl = ht.add({"kind": "blob", "size": 6, "data": None})
+        # the wide tree holds 60000 FILES: read in one go, it is done at once — but reading it takes a while
+        hbig = ht.add({"kind": "tree", "entries": [(0o100644, b"f%06d" % i, hb) for i in range(60000)]})
+        t_a = ht.add({"kind": "tree", "entries": [(0o40000, b"big", hbig), (0o120000, b"link", hl)]})
+        t_b = ht.add({"kind": "tree", "entries": [(0o120000, b"link", hl)]})
+        leaves = [ht.add({"kind": "tree", "entries": [(0o100644, b"g%06d" % i, hb)]}) for i in range(100200)]
+        t_fill = ht.add({"kind": "tree", "entries": [(0o40000, b"d%06d" % i, t) for i, t in enumerate(leaves)]})
+        c_a = ht.add({"kind": "commit", "tree": t_a, "parents": [], "date": 1500000200})
+        c_b = ht.add({"kind": "commit", "tree": t_b, "parents": [], "date": 1500000100})
+        c_f = ht.add({"kind": "commit", "tree": t_fill, "parents": [], "date": 1500000000})
+        ht.refs += [(b"refs/heads/a", c_a), (b"refs/heads/b", c_b), (b"refs/heads/filler", c_f)]
+        ht.compute()
+        # listing: the first tied tree, its wide sub-tree, then at once the second tied tree; in sequence the first is complete
+        # before the second is looked at, so the first is the one cited
+        horder = [c_a, c_b, c_f, t_a, hbig, t_b, hl, hb, t_fill] + leaves
+        first = {}
+        for fmt in (["--json", "--no-progress", "--names=hash"],):
+            for procs in (("1", "16") if quick else ("1", "16", "4", "16", "2")):
+                rc, out, err, log = eng.run_fake(ht, horder, [], [], extra_args=fmt, env={"GOMAXPROCS": procs}, timeout=600)
+                res.case(("many-trees-tie", tuple(fmt), procs, len(first)), True)
+                inp = {"repository": "100204 trees; two trees tied for the symlink maximum, the first listed has a sub-tree of 60000 files", "args": fmt, "GOMAXPROCS": procs}
+                if rc != 0:
+                    res.violations.append(vlib.Violation("run failed: %s" % str(err)[-300:], inp))
+                    break
+                prev = first.setdefault(tuple(fmt), out)
+                if prev != out:
+                    dl = [(a, b) for a, b in zip(prev.split(b"\n"), out.split(b"\n")) if a != b][:2]
+                    res.violations.append(vlib.Violation("the report depends on GOMAXPROCS", inp, expected=[a.decode() for a, _ in dl], observed=[b.decode() for _, b in dl]))
+                    break
         # (d)
         race = vlib.build_go(race=True)["sizer"]
         nraces = 0
